@@ -522,6 +522,7 @@ AckedStayBody ==
 AckedStayUntilRemoved == [][AckedStayBody]_vars
 \* the remote label and the stored labels of a committed snapshot never change (except the user label by Update)
 LabelsStableBody ==
+    last'.act = "Init" \/          \* (monitor: a new recorded behaviour starts)
     \A n \in Names : (Has(meta, n) /\ Has(meta', n) /\ meta[n].kind = "committed") =>
           /\ meta'[n].id = meta[n].id /\ meta'[n].kind = "committed" /\ meta'[n].parent = meta[n].parent
           /\ meta'[n].remote = meta[n].remote /\ meta'[n].ref = meta[n].ref
